@@ -20,7 +20,8 @@ class Prop(PropBase):
             "terminalpp::stdout_channel; the parent reads the child's stdout pipe to EOF and compares it byte for byte "
             "with (a) the bytes the capturing test channel received for the same operations in the executor and (b) the "
             "model's output; large writes (70 KB - 1 MB) are additionally made while the pipe is full and SIGUSR1 is delivered "
-            "repeatedly to the blocked writer (short write(2) counts) with the parent reading slowly. Non-trivial: the script writes at least one byte; distinct by script text.")
+            "repeatedly to the blocked writer (short write(2) counts) with the parent reading slowly; the first 25 scripts run a second "
+            "time in a program that leaves a pending field width, fill character and number base on std::cout between operations. Non-trivial: the script writes at least one byte; distinct by script text.")
     ASSUMPTIONS = ["OS pipe and iostream flushing at process exit are observed, not proved (level: partial for the runtime)"]
 
     @staticmethod
@@ -76,9 +77,14 @@ class Prop(PropBase):
                 model[s_] = flat(a_)
         failures, samples, nbytes, nontrivial = [], [], 0, set()
         env = dict(os.environ, ASAN_OPTIONS="detect_leaks=0")
-        for s_ in scripts:
+        runs = [(s_, env) for s_ in scripts]
+        # the same scripts again in a program that leaves a pending width, fill character and number base on std::cout
+        # between terminal operations (the channel writes bytes; formatting state must not touch them)
+        env_fmt = dict(env, VERIF_COUT_STATE="1")
+        runs += [(s_, env_fmt) for s_ in scripts[:25]]
+        for s_, env_ in runs:
             body = s_[1:].strip()  # drop the kind letter
-            p = subprocess.run([child], input=(body + "\n").encode(), stdout=subprocess.PIPE, stderr=subprocess.PIPE, env=env, timeout=120)
+            p = subprocess.run([child], input=(body + "\n").encode(), stdout=subprocess.PIPE, stderr=subprocess.PIPE, env=env_, timeout=120)
             got = p.stdout
             exp = expected.get(s_)
             if exp is None:
@@ -91,7 +97,8 @@ class Prop(PropBase):
                 samples.append({"script": s_[:200], "stdout_bytes": len(got), "expected_bytes": len(exp)})
             if not ok:
                 first = next((i for i, (x, y) in enumerate(zip(got, exp)) if x != y), min(len(got), len(exp)))
-                failures.append({"what": "child stdout differs from the capturing channel", "signature": "C14 stdout-differs",
+                failures.append({"what": "child stdout differs from the capturing channel" + (" (std::cout left with pending width/fill/base)" if env_ is env_fmt else ""),
+                                 "signature": "C14 stdout-differs",
                                  "lines": [s_[:4000]], "returncode": p.returncode, "first_difference_at": first,
                                  "stdout_hex": got[max(0, first - 8):first + 24].hex(), "expected_hex": exp[max(0, first - 8):first + 24].hex(),
                                  "stdout_len": len(got), "expected_len": len(exp), "model_agrees_with_capture": model.get(s_) == exp,
